@@ -189,6 +189,15 @@ static std::string panel(const cctz::time_zone& tz, const std::string& bytes) {
   return out;
 }
 
+// Fills the stack region the next calls will use with newline bytes (the value the footer reader searches for), so
+// that a read of an uninitialised local in the sanitizer build yields a value the two clang builds (which pre-fill
+// automatic variables with 0xAA / 0x00) cannot produce: the outcome hashes then differ.
+__attribute__((noinline)) static void paint_stack() {
+  volatile char buf[49152];
+  for (size_t i = 0; i < sizeof buf; ++i) buf[i] = '\n';
+  __asm__ volatile("" ::: "memory");
+}
+
 static void run_case(long long idx, const std::string& desc, const std::string& bytes, const Dev& dev, hz::Result& r) {
   std::vector<std::string> ub;
   g_ub = &ub;
@@ -203,6 +212,7 @@ static void run_case(long long idx, const std::string& desc, const std::string& 
   for (int rep = 0; rep < 2; ++rep) {
     cctz::time_zone tz;
     const std::string name = "m/" + std::to_string(g_name_ctr++);
+    paint_stack();
     const bool ok = cctz::load_time_zone(name, &tz);
     std::string out = ok ? "ok|" : "fail|";
     if (!ok && tz != cctz::utc_time_zone()) {
